@@ -224,7 +224,10 @@ def nearest_strategy(draw):
             "n_nearest": draw(st.one_of(st.integers(1, len(targets)), st.just(len(targets)), st.just(max(1, len(targets) - 1)))),
             "n_jobs": draw(st.sampled_from([1, 2, 4]))}
     if draw(st.booleans()):
+        # hopeless matches: after the strand merge 1-(1-p)^2 their p-value is exactly 1.0, the value a "nothing found yet" sentinel would use
         case["homopolymer_queries"] = [[draw(st.integers(0, 3)), draw(st.sampled_from([12, 20, 25]))] for _ in range(draw(st.integers(1, 2)))]
+        case["rc"] = draw(st.sampled_from([True, True, True, False]))
+        case["n_nearest"] = draw(st.sampled_from([len(targets), len(targets), max(1, len(targets) - 1), max(1, len(targets) // 2)]))
     return case
 
 
@@ -248,5 +251,5 @@ def annotate_strategy(draw):
 
 def subchecks(tier):
     return [Sub("schedules", schedule_case, strategy=schedule_strategy, n_quick=60, n_thorough=1500, shards_quick=2, shards_thorough=8, budget_quick=240.0),
-            Sub("n_nearest", nearest_case, strategy=nearest_strategy, n_quick=60, n_thorough=1500, shards_quick=1, shards_thorough=4, budget_quick=240.0),
+            Sub("n_nearest", nearest_case, strategy=nearest_strategy, n_quick=100, n_thorough=1500, shards_quick=1, shards_thorough=4, budget_quick=240.0),
             Sub("annotate_seqlets", annotate_case, strategy=annotate_strategy, n_quick=40, n_thorough=800, shards_quick=1, shards_thorough=4, budget_quick=240.0)]
